@@ -21,12 +21,14 @@ python3 tools/replays_to_corpus.py "$CHK" "$NAME" "$SINCE"
 VIOL=$(echo "$RES" | grep -c '^VIOLATION')
 SIGS=$(echo "$RES" | grep '^violation:' | cut -c1-300 | head -5)
 [ "$PATCH" = "$OUT/patch.diff" ] || cp "$PATCH" "$OUT/patch.diff"; if [ "$DEMO" != "$OUT/demo" ]; then rm -rf "$OUT/demo"; cp -r "$DEMO" "$OUT/demo"; fi; rm -f "$OUT/demo/go.sum"
-python3 - "$OUT/meta.json" <<PY
-import json,sys
-json.dump({"property":"$PROP","name":"$NAME","breaks":"$PROP","needs_to_manifest":"""$NEEDS""",
- "confirmed":{"builds":$BUILD==0,"existing_tests_pass_with_change":$TESTS==0,"demo_exit_on_clean_tree":$CLEAN_DEMO,"demo_exit_with_change":$MUT_DEMO,
-   "commands":["git apply patch.diff (scratch worktree)","go build ./...","go test -count=1 ./... (xtime excluded: TestJitterTicker is unstable on the pinned tree)","cd demo && go test -count=1 ./... (go.mod replaces the module by the worktree)"]},
- "check_run":{"check":"$CHK","violations_reported":$VIOL,"detail":"""$SIGS"""}}, open(sys.argv[1],"w"), indent=1)
+PROP="$PROP" NAME="$NAME" NEEDS="$NEEDS" BUILD="$BUILD" TESTS="$TESTS" CLEAN_DEMO="$CLEAN_DEMO" MUT_DEMO="$MUT_DEMO" CHK="$CHK" VIOL="$VIOL" SIGS="$SIGS" python3 - "$OUT/meta.json" <<'PY'
+import json, os, sys
+e = os.environ
+json.dump({"property": e["PROP"], "name": e["NAME"], "breaks": e["PROP"], "needs_to_manifest": e["NEEDS"],
+ "confirmed": {"builds": e["BUILD"] == "0", "existing_tests_pass_with_change": e["TESTS"] == "0",
+   "demo_exit_on_clean_tree": int(e["CLEAN_DEMO"] or -1), "demo_exit_with_change": int(e["MUT_DEMO"] or -1),
+   "commands": ["git apply patch.diff (scratch worktree)", "go build ./...", "go test -count=1 ./... (xtime excluded: TestJitterTicker is unstable on the pinned tree)", "demo/run.sh <worktree> (or: cd demo && go test -count=1 ./... with go.mod replacing the module by the worktree)"]},
+ "check_run": {"check": e["CHK"], "violations_reported": int(e["VIOL"] or 0), "detail": e["SIGS"]}}, open(sys.argv[1], "w"), indent=1)
 PY
 echo "$NAME: build=$BUILD tests=$TESTS demo clean=$CLEAN_DEMO mutated=$MUT_DEMO check-violations=$VIOL"
 rm -f /tmp/keep_seed_*.$$
